@@ -470,7 +470,9 @@ pub(crate) fn array_type_spec(p: &mut Parser<'_>, want_array_ref_type: bool) -> 
     } else {
         assert!(p.at(T![array]));
     }
-    p.bump_any();
+    // After the modifier the keyword `array` must follow. (Taking any token here accepted
+    // `mutable x[...]` and could put an error token in the tree without a diagnostic.)
+    p.expect(T![array]);
     p.expect(T!['[']);
     if !matches!(
         p.current(),
